@@ -328,3 +328,12 @@ K void k_sub_ext(IT const* e, sz pat, IT const* iv, sz* orank, sz* ostatic, IT* 
 {
     [&]<sz... P>(etl::index_sequence<P...>) { ((pat == P ? sub_one<P>(e, iv, orank, ostatic, oext) : void()), ...); }(etl::make_index_sequence<NPAT>{});
 }
+#if RANK == 1
+// a run-time index pair [lo, hi) on the only dimension
+K void k_sub_pair(IT const* e, IT lo, IT hi, sz* orank, sz* ostatic, IT* oext)
+{
+    auto r = etl::submdspan_extents(mkext<EXT>(e), etl::pair<IT, IT>{lo, hi});
+    using RT = decltype(r);
+    *orank = RT::rank(); ostatic[0] = RT::static_extent(0); oext[0] = r.extent(0);
+}
+#endif
